@@ -474,6 +474,77 @@ def c10_formats(cfg):
     return rec
 
 
+def c10_implicit(cfg):
+    """History independence in implicit mode (LinearOperator blocks, direct solver with the exact-LU stub)."""
+    import pymablock.linalg as PL
+    from pymablock import block_diagonalize
+    from pymablock.series import one, zero
+    from scipy.sparse.linalg import LinearOperator
+
+    from .implicit import basis_pair, exact_factorized
+
+    rec = Rec("C10", cfg)
+    herm = cfg.get("hermitian", True)
+    n, explicit = cfg["n"], cfg["explicit"]
+    k = sum(explicit)
+    Q, Lq = basis_pair(cfg["basis"], n)
+    Efl = np.array([float(x) for x in cfg["spectrum"]])
+    H0 = (Q * Efl) @ Lq.conj().T
+    if np.allclose(np.asarray(H0).imag, 0):
+        H0 = np.asarray(H0).real
+    H1 = symc.SymArray(symc.hermitian("h_", n) if herm else symc.general("h_", n))
+    off = np.cumsum([0] + explicit)
+    vecs = [Q[:, off[b] : off[b + 1]].copy() for b in range(len(explicit))]
+    nb = len(explicit) + 1
+    mo = cfg["max_order"]
+    eq = EqCache(rec)
+    old = PL.factorized
+    PL.factorized = exact_factorized
+    try:
+        def fresh():
+            return block_diagonalize([H0, H1], subspace_eigenvectors=vecs, hermitian=herm)
+
+        def val(S, key):
+            v = S[key]
+            if v is zero:
+                return symc.zeros(1, 1)
+            if v is one:
+                return symc.eye(1)
+            if isinstance(v, LinearOperator):
+                v = v @ np.eye(n)
+            return np.asarray(v, dtype=object)
+
+        keys = [(w, i, j, o) for w in range(3) for o in range(1, mo + 1) for i in range(nb) for j in range(nb)]
+        base = fresh()
+        ref = {key: val(base[key[0]], key[1:]) for key in keys}
+        scheds = list(itertools.product(keys, repeat=2))
+        ci, cn = cfg.get("chunk", (0, 1))
+        scheds = scheds[ci::cn]
+        if cfg.get("sample"):
+            rnd = random.Random(cfg.get("sample_seed", 0))
+            scheds = [tuple(rnd.choice(keys) for _ in range(cfg["k"])) for _ in range(cfg["sample"])]
+        fails = []
+        for sched in scheds:
+            series = fresh()
+            for key in sched:
+                r = eq.same(val(series[key[0]], key[1:]), ref[key])
+                if r is False:
+                    fails.append({"schedule": [list(x) for x in sched], "at": list(key), "kind": "value differs from fresh computation"})
+                    break
+            if fails:
+                break
+    finally:
+        PL.factorized = old
+    sig = f"history:implicit:herm={herm}"
+    if fails:
+        rec.direct_violation(f"implicit-mode schedule {fails[0]['schedule']}", sig, fails[0])
+    else:
+        rec.discharged(f"{len(scheds)} implicit-mode schedules: all values equal the fresh computation ({eq.structural} entries syntactically, {eq.solver_calls} by z3)", "unsat")
+    rec.nontrivial = True
+    rec.sample = {"config": cfg, "schedules": len(scheds)}
+    return rec
+
+
 # ------------------------------------------------------------------------------------------------
 # C11
 
@@ -775,6 +846,10 @@ def configs_c10(tier, seed):
         add(**a, k=5, sample=40 if tier == "quick" else 400, sample_seed=7 + seed, slices=True)
     out = [("vf.props.history", "c10", c) for c in cfgs]
     for herm in (True, False):
+        for c in range(4):
+            out.append(("vf.props.history", "c10_implicit", dict(implicit=True, hermitian=herm, n=3, explicit=[1], basis="complex", spectrum=["0", "2", "3"], max_order=2, chunk=[c, 4])))
+        out.append(("vf.props.history", "c10_implicit", dict(implicit=True, hermitian=herm, n=4, explicit=[1, 1], basis="hadamard", spectrum=["0", "2", "3", "7"], max_order=2,
+                                                             sample=40 if tier == "quick" else 400, k=4, sample_seed=seed)))
         out.append(("vf.props.history", "c10_formats", dict(formats=True, mode="containers", hermitian=herm)))
         for w in range(3):
             for c in range(4):
